@@ -1099,3 +1099,40 @@ Proof.
   destruct (c_call gt cfg_fixed F GF cs x) as [cs' r]. cbn [fst] in *.
   specialize (IH cs' R1 V2 W2). destruct (c_run gt cfg_fixed F GF cs' t) as [cs'' rs]. exact IH.
 Qed.
+
+(* ---- NULL arguments: a NULL pointer that the leading check tests is refused before anything is touched ---- *)
+Lemma existsb_inb_hit : forall p nl l, inb p nl = true -> inb p l = true -> existsb (fun a => inb a nl) l = true.
+Proof.
+  intros p nl l Hn. induction l as [|b t IH]; cbn [inb existsb]; [discriminate|].
+  destruct (String.eqb_spec p b) as [->|N]; [rewrite Hn; reflexivity|]. intros H. rewrite (IH H). apply orb_true_r.
+Qed.
+Lemma inb_app_l : forall p a b, inb p a = true -> inb p (a ++ b) = true.
+Proof. intros p a b. induction a as [|x a IH]; cbn [inb app]; [discriminate|]. destruct (String.eqb p x); auto. Qed.
+
+Theorem null_refused : forall gt c F GF cs call p,
+  dead cs = false ->
+  existsb (fun a => inb a (c_nulls call)) (g_pre_deref (glue_of gt (fname (c_args call)))) = false ->
+  inb p (c_nulls call) = true -> inb p (g_checked (glue_of gt (fname (c_args call)))) = true ->
+  c_call gt c F GF cs call = (cs, ret_of (g_check_ret (glue_of gt (fname (c_args call))))).
+Proof.
+  intros gt c F GF cs call p D PD Hn Hc. unfold c_call. rewrite D, PD.
+  rewrite (existsb_inb_hit p (eff_nulls cs call) _); [reflexivity| |exact Hc].
+  unfold eff_nulls. apply inb_app_l. exact Hn.
+Qed.
+
+Lemma glue_of_pre_deref : forall gt n, forallb (fun g => match g_pre_deref g with [] => true | _ => false end) gt = true ->
+  g_pre_deref (glue_of gt n) = [].
+Proof.
+  intros gt n. induction gt as [|g t IH]; cbn [glue_of forallb]; [reflexivity|]. intros H. apply andb_true_iff in H. destruct H as [Hg Ht].
+  destruct (String.eqb (g_name g) n); [destruct (g_pre_deref g); [reflexivity|discriminate]|apply IH; exact Ht].
+Qed.
+
+Theorem null_refused_tree : forall c F GF cs call p,
+  dead cs = false -> inb p (c_nulls call) = true -> inb p (g_checked (glue_of wrappers (fname (c_args call)))) = true ->
+  c_call wrappers c F GF cs call = (cs, ret_of (g_check_ret (glue_of wrappers (fname (c_args call)))))
+  /\ ret_of (g_check_ret (glue_of wrappers (fname (c_args call)))) <> Crashed.
+Proof.
+  intros c F GF cs call p D Hn Hc. split; [|apply ret_of_not_crashed].
+  apply (null_refused wrappers c F GF cs call p D); [|exact Hn|exact Hc].
+  rewrite glue_of_pre_deref; [reflexivity|vm_compute; reflexivity].
+Qed.
